@@ -741,9 +741,13 @@ example :
 
 /-! ### The static block survives, everything else is returned by a hard reset -/
 
-/-- `hasStatic` never changes and the static block stays the first block of the chain -/
-def StaticInv (staticSize : Nat) (s : State) : Prop :=
-  s.hasStatic = decide (staticSize ≠ 0) ∧ (staticSize ≠ 0 → s.blocks.take 1 = [staticSize - 16])
+/-- `hasStatic` does not change and the first block of the chain stays the first block -/
+def Rel (s s' : State) : Prop :=
+  s'.hasStatic = s.hasStatic ∧ ∀ b, s.blocks.take 1 = [b] → s'.blocks.take 1 = [b]
+
+theorem Rel.refl (s : State) : Rel s s := ⟨rfl, fun _ h => h⟩
+theorem Rel.trans {a b c : State} (h1 : Rel a b) (h2 : Rel b c) : Rel a c :=
+  ⟨h2.1.trans h1.1, fun x h => h2.2 x (h1.2 x h)⟩
 
 theorem take1_take_append (B X : List Nat) (c b : Nat) (h : B.take 1 = [b]) :
     (B.take (c + 1) ++ X).take 1 = [b] := by
@@ -751,134 +755,38 @@ theorem take1_take_append (B X : List Nat) (c b : Nat) (h : B.take 1 = [b]) :
   | nil => simp at h
   | cons a rest => simp at h; simp [h]
 
-theorem StaticInv.slow {z : Nat} {s : State} (h : StaticInv z s) (size : Nat) :
-    StaticInv z (allocOneshotSlow s size).1 := by
-  unfold allocOneshotSlow
-  simp only []
-  split
-  · exact ⟨h.1, fun hz => take1_take_append _ _ _ _ (h.2 hz)⟩
-  · have hf : StaticInv z { s with blocks := s.blocks.take (s.cur + 1) } :=
-      ⟨h.1, fun hz => by simpa using take1_take_append _ [] s.cur _ (h.2 hz)⟩
-    split
-    · exact hf
-    · split
-      · exact hf
-      · exact ⟨h.1, fun hz => take1_take_append _ _ _ _ (h.2 hz)⟩
+theorem slow_rel {s : State} {size : Nat} {s' : State} {r : Option Loc}
+    (h : allocOneshotSlow s size = (s', r)) : Rel s s' := by
+  unfold allocOneshotSlow at h
+  simp only [] at h
+  have hf : Rel s { s with blocks := s.blocks.take (s.cur + 1) } :=
+    ⟨rfl, fun b hb => by simpa using take1_take_append _ [] s.cur _ hb⟩
+  split at h
+  · cases h
+    exact ⟨rfl, fun b hb => take1_take_append _ _ _ _ hb⟩
+  · by_cases hA : size > 1 <<< s.shift - 48 ∧ size > u64 - 1 - 48
+    · rw [if_pos hA] at h; cases h; exact hf
+    · rw [if_neg hA] at h
+      by_cases hB : (if size > 1 <<< s.shift - 48 then size + 16 else 1 <<< s.shift - 32) > s.mallocMax
+      · rw [if_pos hB] at h; cases h; exact hf
+      · rw [if_neg hB] at h
+        cases h
+        exact ⟨rfl, fun b hb => take1_take_append _ _ _ _ hb⟩
 
-theorem StaticInv.leftover_inv {z : Nat} : ∀ (fuel : Nat) (s : State) (size : Nat),
-    StaticInv z s → StaticInv z (leftover fuel s size) := by
+theorem leftover_rel : ∀ (fuel : Nat) (s : State) (size : Nat), Rel s (leftover fuel s size) := by
   intro fuel
   induction fuel with
-  | zero => intro s size h; simpa [leftover] using h
+  | zero => intro s size; simpa [leftover] using Rel.refl s
   | succ n ih =>
-    intro s size h
+    intro s size
     unfold leftover
-    split
-    · exact h
-    · exact ih _ _ ⟨h.1, h.2⟩
-
-theorem StaticInv.allocReusable_inv {z : Nat} {s : State} (h : StaticInv z s) (size : Nat) :
-    StaticInv z (allocReusable s size).1 := by
-  unfold allocReusable
-  simp only []
-  split
-  · split
-    · exact ⟨h.1, h.2⟩
-    · split
-      · exact ⟨h.1, h.2⟩
-      · have := (h.leftover_inv 64 s s.remaining).slow (slotSize (slotIndex size))
-        split <;> rename_i heq <;> rw [heq] at this <;> exact this
-  · split
-    · exact h
-    · split
-      · exact h
-      · exact ⟨h.1, h.2⟩
-
-theorem StaticInv.step {z : Nat} {s : State} (live : Live) (h : StaticInv z s) (op : AOp) :
-    StaticInv z (step (s, live) op).1 := by
-  cases op with
-  | one size =>
-    simp only [Arena.step]
-    split
-    · have : StaticInv z (allocOneshot s size).1 := by
-        unfold allocOneshot
-        split
-        · exact h.slow size
-        · exact ⟨h.1, h.2⟩
-      split <;> rename_i heq <;> rw [heq] at this <;> exact this
-    · exact h
-  | get k size =>
-    simp only [Arena.step]
-    split
-    · have := h.allocReusable_inv size
-      split <;> rename_i heq <;> rw [heq] at this <;> exact this
-    · exact h
-  | put k =>
-    simp only [Arena.step]
-    split
-    · rename_i p sz _
-      show StaticInv z (freeReusable s p sz)
-      unfold freeReusable
+    by_cases hsz : size < kMinSlot
+    · rw [if_pos hsz]; exact Rel.refl s
+    · rw [if_neg hsz]
       simp only []
-      split
-      · exact ⟨h.1, h.2⟩
-      · split
-        · exact ⟨h.1, h.2⟩
-        · exact h
-    · exact h
-  | reset hard =>
-    simp only [Arena.step]
-    cases hard with
-    | false => exact ⟨h.1, h.2⟩
-    | true =>
-      refine ⟨?_, ?_⟩
-      · have := h.1
-        simp only [Arena.reset]
-        split <;> [exact this; (split <;> exact this)]
-      · intro hz
-        have h1 := h.1
-        have h2 := h.2 hz
-        have hs : s.hasStatic = true := by simp [h1, hz]
-        cases hb : s.blocks with
-        | nil => simp [hb] at h2
-        | cons b rest => simpa [Arena.reset, hb, hs] using (hb ▸ h2)
-
-theorem StaticInv.run {z : Nat} : ∀ (ops : List AOp) (s : State) (live : Live), StaticInv z s →
-    StaticInv z (run ops (s, live)).1 := by
-  intro ops
-  induction ops with
-  | nil => intro s live h; exact h
-  | cons op ops ih =>
-    intro s live h
-    have := h.step live op
-    simp only [Arena.run, List.foldl_cons] at ih ⊢
-    exact ih _ _ this
-
-/-- After any history, a hard reset brings the arena back to the block chain it was initialised with: only
-the static block (if one was given) remains; bump pointer, free lists, dynamic blocks and the live set are
-empty. -/
-theorem reset_hard_restores_init (minBlock staticSize mallocMax : Nat) (ops : List AOp) :
-    let r := run (ops ++ [.reset true]) (init minBlock staticSize mallocMax, [])
-    r.1.blocks = (init minBlock staticSize mallocMax).blocks ∧ r.1.ptr = 0 ∧ r.1.cur = 0 ∧
-    r.1.slots = List.replicate 8 [] ∧ r.1.dyns = [] ∧ r.2 = [] := by
-  have h0 : StaticInv staticSize (init minBlock staticSize mallocMax) := by
-    refine ⟨by simp [Arena.init], fun hz => by simp [Arena.init, hz]⟩
-  have h := h0.run ops []
-  simp only [Arena.run, List.foldl_append, List.foldl_cons, List.foldl_nil] at h ⊢
-  generalize List.foldl step (init minBlock staticSize mallocMax, []) ops = r at h
-  rcases r with ⟨s, live⟩
-  have hr := reset_returns_all s live true
-  simp only at hr h ⊢
-  refine ⟨?_, hr.1, hr.2.1, hr.2.2.1, hr.2.2.2.1, hr.2.2.2.2.1⟩
-  rw [hr.2.2.2.2.2 rfl]
-  by_cases hz : staticSize = 0
-  · have : s.hasStatic = false := by simp [h.1, hz]
-    simp [this, Arena.init, hz]
-  · have : s.hasStatic = true := by simp [h.1, hz]
-    simp [this, Arena.init, hz, h.2 hz]
-
-example :
-    (run ([.one 1000, .one 1000, .one 4000, .get 1 5000] ++ [.reset true]) (init 1024 512, [])).1.blocks = [496] := by
-  decide
+      generalize (if slotIndex (size / 2) < kSlotCount then slotIndex (size / 2) else kSlotCount - 1) = k
+      have h1 := ih { s with slots := pushSlot s.slots k (.managed s.cur s.ptr), ptr := s.ptr + slotSize k }
+        (size - slotSize k)
+      exact ⟨h1.1, h1.2⟩
 
 end AsmjitVerif.Arena
